@@ -124,9 +124,17 @@ def arms_present(pdb):
                 if x == ("load", STATE) and y[0] == "c":
                     ks.add(y[1])
         if i.op == "switch" and vf.expr(fn, i["cond"]) == ("load", STATE):
-            for k, _ in i["cases"]:
-                ks.add(k)
-    return ks
+            for k, dst in i["cases"]:
+                if dst != i["default"]:
+                    ks.add(k)
+    # a label that is only there for completeness (case X: break;) is no arm: the iteration does nothing for that state, exactly as
+    # when no comparison names it
+    out = set()
+    for k in ks:
+        arm = explore_arm(pdb, k)
+        if any(len([e for e in o["events"] if not (e[0] == "store" and e[1] == "state")]) > 0 or o["end"] != "loop" for o in arm) or not arm:
+            out.add(k)
+    return out
 
 
 # ---------------------------------------------------------------- interprocedural state effects
